@@ -30,7 +30,7 @@ for sid in sorted(m, key=lambda s: (int(s[1:3]), int(s.split("-")[1]))):
     rows.append("| %s | %s: %s | %s | %s |" % (sid, files, what, cell, ("`" + first[:110] + "`") if first else ""))
 rows.append("")
 rows.append("%d of %d changes are reported as a VIOLATION by at least one check. A C-kernel change caught by a per-property check is caught by C13 as well "
-            "(C13 re-proves the same kernel contracts; verified for C02-1, C13-1..3)." % (caught, len(m)))
+            "(C13 re-proves the same kernel contracts; verified for C02-1, C13-1..5, C11-4)." % (caught, len(m)))
 txt = "\n".join(rows)
 p = os.path.join(HERE, "DESIGN.md")
 s = open(p).read()
